@@ -92,6 +92,11 @@ func gen(t *rapid.T) Case {
 				continue
 			}
 			ntargets++
+			if mode != "none" && rapid.IntRange(0, 5).Draw(t, fmt.Sprintf("empty%d", s)) == 0 {
+				// the function yields a message whose fields are all at their defaults (zero bytes on the wire): a message all the same
+				c.Call.PerNode[s] = "empty"
+				continue
+			}
 			v := ""
 			if mode == "distinct" || rapid.Bool().Draw(t, fmt.Sprintf("tagged%d", s)) {
 				v = fmt.Sprintf("tag:%d", rapid.IntRange(1, 99).Draw(t, fmt.Sprintf("tag%d", s)))
@@ -308,6 +313,13 @@ func run(c Case) vt.Verdict {
 			b.ErrCode, b.ErrMsg = 10, "stream over" // ends the node's stream so that the call can complete
 		}
 		cl.SetBehaviour(s, tok, b)
+		if spec.PerNode[s] == "empty" {
+			cl.SetBehaviour(s, 0, b) // this node's message carries no token
+		}
+	}
+	// subject: the enter event belongs to the subject call (the empty per-node message has token 0)
+	subject := func(e scen.Event) bool {
+		return e.Token == tok || (e.Token == 0 && e.Server >= 0 && spec.PerNode[e.Server] == "empty")
 	}
 	if blockedSrv >= 0 {
 		cl.Fab.Block(scen.Addr(blockedSrv))
@@ -330,7 +342,7 @@ func run(c Case) vt.Verdict {
 			return vt.Verdict{OK: true, Inconclusive: true, Msg: "one-way call returned late"}
 		}
 		for _, e := range cl.Log.Snapshot() {
-			if e.Kind == "exit" && e.Token == tok {
+			if e.Kind == "exit" && subject(e) {
 				return vt.Fail(k("harness"), "handler exited although its gate is closed")
 			}
 		}
@@ -344,14 +356,17 @@ func run(c Case) vt.Verdict {
 	type want struct {
 		tag uint32
 		ph  uint64
+		seq uint64
 	}
 	expected := map[int]want{}
 	for _, s := range call.Targets {
 		if s == blockedSrv {
 			continue // unreachable: zero deliveries
 		}
-		w := want{ph: scen.HashBytes(call.Req.GetPayload())}
-		if scen.HasPerNode(kind) {
+		w := want{ph: scen.HashBytes(call.Req.GetPayload()), seq: 1}
+		if spec.PerNode[s] == "empty" {
+			w = want{ph: scen.HashBytes(nil)}
+		} else if scen.HasPerNode(kind) {
 			tag, pay, _ := scen.PerNodeArgs(spec, s)
 			w.tag = tag
 			if pay >= 0 {
@@ -366,7 +381,7 @@ func run(c Case) vt.Verdict {
 		if cl.Log.WaitFor(3*scen.B, func(evs []scen.Event) bool {
 			got := map[int]bool{}
 			for _, e := range evs {
-				if e.Kind == "enter" && e.Token == tok {
+				if e.Kind == "enter" && subject(e) {
 					got[e.Server] = true
 				}
 			}
@@ -389,7 +404,7 @@ func run(c Case) vt.Verdict {
 		var missing []int
 		got := map[int]bool{}
 		for _, e := range cl.Log.Snapshot() {
-			if e.Kind == "enter" && e.Token == tok {
+			if e.Kind == "enter" && subject(e) {
 				got[e.Server] = true
 			}
 		}
@@ -432,12 +447,12 @@ func run(c Case) vt.Verdict {
 	evs := cl.Log.Snapshot()
 	count := map[int]int{}
 	for _, e := range evs {
-		if e.Kind == "enter" && (e.Token < tok || e.Token > tok+uint64(1+c.N)) {
+		if e.Kind == "enter" && !subject(e) && (e.Token < tok || e.Token > tok+uint64(1+c.N)) {
 			// a handler ran for a message that is none of this case's requests (e.g. an empty message)
 			return vt.Verdict{OK: false, Key: k("unknown-message-delivered"), History: evs,
 				Msg: fmt.Sprintf("%s: server %d ran handler %s for a message that is not a request of any call (token %d, payload hash %x): a node that must receive nothing received something", kind, e.Server, e.Method, e.Token, e.PayHash)}
 		}
-		if e.Kind != "enter" || e.Token != tok {
+		if e.Kind != "enter" || !subject(e) {
 			continue
 		}
 		count[e.Server]++
@@ -461,9 +476,9 @@ func run(c Case) vt.Verdict {
 		if e.Method != kind {
 			return vt.Verdict{OK: false, Key: k("wrong-method"), History: evs, Msg: fmt.Sprintf("%s: server %d ran handler %s", kind, e.Server, e.Method)}
 		}
-		if e.Tag != w.tag || e.PayHash != w.ph || e.Seq != 1 {
+		if e.Tag != w.tag || e.PayHash != w.ph || e.Seq != w.seq || (w.seq == 0 && e.Token != 0) || (w.seq == 1 && e.Token != tok) {
 			return vt.Verdict{OK: false, Key: k("wrong-message"), History: evs,
-				Msg: fmt.Sprintf("%s: server %d received tag=%d payload-hash=%x seq=%d, its own message has tag=%d payload-hash=%x seq=1", kind, e.Server, e.Tag, e.PayHash, e.Seq, w.tag, w.ph)}
+				Msg: fmt.Sprintf("%s: server %d received tag=%d payload-hash=%x seq=%d, its own message has tag=%d payload-hash=%x seq=%d", kind, e.Server, e.Tag, e.PayHash, e.Seq, w.tag, w.ph, w.seq)}
 		}
 	}
 	for s, n := range count {
@@ -514,6 +529,10 @@ func run(c Case) vt.Verdict {
 				distinct[v] = true
 			}
 		}
+		if distinct["empty"] {
+			classes = append(classes, "empty-per-node-message")
+			nontrivial = true
+		}
 		if skips > 0 {
 			classes = append(classes, "skips")
 			nontrivial = true
@@ -542,7 +561,9 @@ func run(c Case) vt.Verdict {
 		}
 		want := map[int]bool{}
 		for _, s := range call2.Targets {
-			want[s] = true
+			if spec.PerNode[s] != "empty" { // an empty message carries no token: the second one cannot be told from the first
+				want[s] = true
+			}
 		}
 		arrived := make(chan struct{})
 		go func() {
@@ -585,7 +606,7 @@ func run(c Case) vt.Verdict {
 func TestProp(t *testing.T) {
 	vt.Main(t, vt.Spec[Case]{
 		ID:           "C06",
-		Rule:         "rapid-generated cases: configuration of 1-7 nodes, a call kind among all that take a per-node function plus plain quorum/async/correctable calls, multicast and unicast; the per-node function as a table node -> skip | tag | node-specific payload (skip none/some/all, distinct payloads per node); WithNoSendWaiting on/off; every handler blocked while the call is made; optionally an idle target whose dial blocks (and whose server then starts: a second one-way call of the same kind must reach it too); oracle: delivery multiset per server equals f(request, id) exactly once for targeted reachable nodes and nothing for skipped ones (after a fence RPC per node), one-way calls return while all handlers are blocked (and while the dial is blocked with no-send-waiting), two-way calls complete by the non-skipped nodes alone with Incomplete accounting over the non-skipped nodes; a second case shape (1 in 6): K one-way messages with contexts that never end are sent to nodes whose handlers block without Release, then 1-24 other calls of 6 kinds on the same nodes end by their context (already ended when the call is made; or, 1 in 8, large requests cancelled microseconds after being issued), then the handlers are released and a fence RPC per node completes - every message must have been delivered exactly once; non-trivial = a per-node function with a skip or two distinct per-node messages, or a one-way call behind blocked handlers, or any case of the second shape",
+		Rule:         "rapid-generated cases: configuration of 1-7 nodes, a call kind among all that take a per-node function plus plain quorum/async/correctable calls, multicast and unicast; the per-node function as a table node -> skip | empty message (every field at its default, zero bytes on the wire - a message all the same) | tag | node-specific payload (skip none/some/all, distinct payloads per node); WithNoSendWaiting on/off; every handler blocked while the call is made; optionally an idle target whose dial blocks (and whose server then starts: a second one-way call of the same kind must reach it too); oracle: delivery multiset per server equals f(request, id) exactly once for targeted reachable nodes and nothing for skipped ones (after a fence RPC per node), one-way calls return while all handlers are blocked (and while the dial is blocked with no-send-waiting), two-way calls complete by the non-skipped nodes alone with Incomplete accounting over the non-skipped nodes; a second case shape (1 in 6): K one-way messages with contexts that never end are sent to nodes whose handlers block without Release, then 1-24 other calls of 6 kinds on the same nodes end by their context (already ended when the call is made; or, 1 in 8, large requests cancelled microseconds after being issued), then the handlers are released and a fence RPC per node completes - every message must have been delivered exactly once; non-trivial = a per-node function with a skip or two distinct per-node messages, or a one-way call behind blocked handlers, or any case of the second shape",
 		Gen:          gen,
 		Run:          run,
 		TrackCurrent: true,
